@@ -9,6 +9,7 @@ require (
 	github.com/hydraide/hydraide/sdk/go/hydraidego/v3 v3.0.0-00010101000000-000000000000
 	golang.org/x/tools v0.43.0
 	google.golang.org/grpc v1.81.0
+	google.golang.org/protobuf v1.36.11
 	pgregory.net/rapid v1.3.0
 )
 
@@ -26,7 +27,6 @@ require (
 	golang.org/x/sys v0.43.0 // indirect
 	golang.org/x/text v0.36.0 // indirect
 	google.golang.org/genproto/googleapis/rpc v0.0.0-20260427160629-7cedc36a6bc4 // indirect
-	google.golang.org/protobuf v1.36.11 // indirect
 )
 
 replace github.com/hydraide/hydraide => /repo
